@@ -189,6 +189,62 @@ pub fn first_diff(a: &[AbsEv], b: &[AbsEv]) -> Option<(usize, String, String)> {
     None
 }
 
+/// A cell as (column kind, column index, row).
+pub type CellId = (u8, usize, usize);
+
+/// The copy constraints of a recorded synthesis as a canonical SET of unordered (cell, cell) pairs
+/// (each pair with its smaller cell first; duplicates and the order of the calls forgotten).
+pub fn copy_set(evs: &[AbsEv]) -> std::collections::BTreeSet<(CellId, CellId)> {
+    evs.iter()
+        .filter_map(|e| match e {
+            AbsEv::Copy(a, ra, b, rb) => {
+                let (x, y) = ((a.0, a.1, *ra), (b.0, b.1, *rb));
+                Some(if x <= y { (x, y) } else { (y, x) })
+            }
+            _ => None,
+        })
+        .collect()
+}
+
+/// The partition of the cells induced by the copy constraints (what the permutation argument
+/// enforces): the classes with at least two cells, each sorted, sorted.
+pub fn copy_partition(evs: &[AbsEv]) -> Vec<Vec<CellId>> {
+    let pairs = copy_set(evs);
+    let mut id: BTreeMap<CellId, usize> = BTreeMap::new();
+    for (a, b) in &pairs {
+        let n = id.len();
+        id.entry(*a).or_insert(n);
+        let n = id.len();
+        id.entry(*b).or_insert(n);
+    }
+    let mut parent: Vec<usize> = (0..id.len()).collect();
+    fn find(p: &mut Vec<usize>, mut x: usize) -> usize {
+        while p[x] != x {
+            p[x] = p[p[x]];
+            x = p[x];
+        }
+        x
+    }
+    for (a, b) in &pairs {
+        let (ra, rb) = (find(&mut parent, id[a]), find(&mut parent, id[b]));
+        if ra != rb {
+            parent[ra.max(rb)] = ra.min(rb);
+        }
+    }
+    let mut classes: BTreeMap<usize, Vec<CellId>> = BTreeMap::new();
+    for (c, i) in &id {
+        let r = find(&mut parent, *i);
+        classes.entry(r).or_default().push(*c);
+    }
+    let mut out: Vec<Vec<CellId>> = classes.into_values().filter(|c| c.len() > 1).collect();
+    out.sort();
+    out
+}
+
+fn fmt_cell(c: &CellId) -> String {
+    format!("{}@{}", col_name(c.0, c.1), c.2)
+}
+
 /// Public inputs bound by the recorded synthesis, per instance column: the values of the cells
 /// copy-constrained to instance cells.
 pub fn derive_instance(s: &Synth) -> Vec<Vec<F>> {
@@ -721,8 +777,15 @@ pub fn check_family<C: Circuit<F>>(
     };
     let n_inst_rows = derive_rows(&s0);
     ctx.case(&format!("place:{kind}"), true, &place_line(&s0), &fmt_starts(&starts));
+    let copy_digest = {
+        let mut d = Dig::default();
+        for (a, b) in copy_set(&s0.evs) {
+            d.toks(&[a.0 as usize, a.1, a.2, b.0 as usize, b.1, b.2]);
+        }
+        d.0
+    };
     let answer = format!(
-        "starts={} H={} n={} rows={} trows={} irows={} k={} V={}",
+        "starts={} H={} n={} rows={} trows={} irows={} k={} V={} C={}",
         fmt_starts(&starts),
         fold_digests(&digs),
         s0.evs.len(),
@@ -731,6 +794,7 @@ pub fn check_family<C: Circuit<F>>(
         n_inst_rows,
         m0.0,
         view_digest_from_trace(&s0.evs, &s0.cs, k),
+        copy_digest,
     );
     let small = s0.evs.len() <= small_limit;
     ctx.case(
@@ -783,6 +847,9 @@ pub fn check_family<C: Circuit<F>>(
 
     // 3. every witness class against the keygen view
     let e0 = erased(&s0.evs);
+    let copies0 = copy_set(&s0.evs);
+    let partition0 = copy_partition(&s0.evs);
+    ctx.count_n("copy_pairs_keygen", copies0.len() as u64);
     let mut violated = false;
     let mut first_demo = true;
     let mut mock0: Option<MockProver<F>> = None;
@@ -810,6 +877,28 @@ pub fn check_family<C: Circuit<F>>(
         if let Some(log) = &s.log {
             if !check_passes(ctx, name, &kn.class, log) {
                 violated = true;
+            }
+        }
+        // copy constraints as a canonical set of (cell, cell) pairs, whatever the order of the calls
+        ctx.count("copy_sets_compared");
+        {
+            let cs1 = copy_set(&s.evs);
+            if cs1 != copies0 {
+                violated = true;
+                let only_w: Vec<String> = cs1.difference(&copies0).take(12).map(|(a, b)| format!("{}={}", fmt_cell(a), fmt_cell(b))).collect();
+                let only_k: Vec<String> = copies0.difference(&cs1).take(12).map(|(a, b)| format!("{}={}", fmt_cell(a), fmt_cell(b))).collect();
+                let part_equal = copy_partition(&s.evs) == partition0;
+                let demo_result = if first_demo { demo(ci) } else { None };
+                first_demo = false;
+                ctx.oracle_fail(
+                    &format!("copies:{name}"),
+                    "the copy constraints (permutation) differ between the unknown witness (keygen) and a concrete witness",
+                    json!({"circuit": name, "class": kn.class, "witness": kn.witness,
+                           "copies_only_with_witness": only_w, "copies_only_at_keygen": only_k,
+                           "n_copies_keygen": copies0.len(), "n_copies_witness": cs1.len(),
+                           "induced_partition_equal": part_equal,
+                           "keygen_without_witness_then_prove_with_witness": demo_result}),
+                );
             }
         }
         if let Some((i, a, b)) = first_diff(&e0, &s.evs) {
@@ -1240,6 +1329,10 @@ const FLOW_QUICK: &[&str] = &[
     "FixedSeq([1,2,1,3,2,1])", "JubAdd", "Poseidon(2)", "VecLimits", "MapGet", "Base64(8,true)", "BigAdd(64)",
     // regressions: chips configured but never used (base64 could not be proved before 1d7439c)
     "Unused(0)", "Unused(2)", "Unused(6)",
+    // value -> structure channels: key without witness, proofs selecting the first and the last entries
+    "K1KofN(3,1)", "K1KofN(4,2)", "K1MsmBits(4,1)",
+    // example relations
+    "Schnorr", "EccOps",
 ];
 
 pub fn run(ctx: &mut Ctx) {
@@ -1252,7 +1345,7 @@ pub fn run(ctx: &mut Ctx) {
     let mut jobs: Vec<(Op, u8)> = all_ops(&tier)
         .into_iter()
         // the failing-input search leaves out the circuits whose single synthesis takes seconds
-        .filter(|o| !ctx.search() || !matches!(o, Op::K1Msm(_) | Op::BlsMsm | Op::BlsAdd | Op::BlsDouble | Op::BigModExp(1024, _) | Op::BigMul(1024) | Op::Sha512(_) | Op::Blake2b(_) | Op::Sha3(_) | Op::Keccak(_)))
+        .filter(|o| !ctx.search() || !matches!(o, Op::K1Msm(_) | Op::BlsMsm | Op::BlsAdd | Op::BlsDouble | Op::BigModExp(1024, _) | Op::BigMul(1024) | Op::Sha512(_) | Op::Blake2b(_) | Op::Blake2b512(_) | Op::Sha3(_) | Op::Keccak(_)))
         .map(|o| (o, 8u8))
         .collect();
     jobs.push((Op::ToLeBits(Some(13), true), 10));
